@@ -1,5 +1,55 @@
-import TransportVerif.Model.Replay
-import TransportVerif.Spec.Replay
+import TransportVerif.Link.Replay
+import TransportVerif.Proofs.Replay
+/-
+C04 — a replay detector never accepts the same sequence number twice; nothing above the maximum
+is accepted.  The statements below are FIXED; only the proofs may change.
+-/
 namespace TV.Props.C04
-theorem placeholder : True := trivial
+open TV TV.Replay TV.ReplayLink
+
+/-- every sequence number of the history is a uint64 -/
+def OpsU64 (ops : List Replay.Op) : Prop := ∀ op ∈ ops, Op.num op < two64
+
+set_option linter.unusedVariables false in
+/-- Main theorem (judgement form).  For both detectors, every window size and maximum (the
+wrapping detector: maximum below 2^62), and every history of check / check+accept operations,
+every outcome of the model is admitted by C04's judgement against the recorded history: a number
+above the maximum, or one accepted before (wrapping: while the newest accepted number is less
+than half the sequence space ahead of it), is refused. -/
+theorem judged04 (kind : Replay.Kind) (w m : Nat) (ops : List Replay.Op)
+    (hm : m < two64) (hw : w < 2 ^ 63) (hwrap : kind = .wrap → m < 2 ^ 62) (hops : OpsU64 ops) :
+    ∀ o ∈ runNew kind w m ops,
+      ReplaySpec.allowed04 (cfgOf kind w m) o.before (Op.num o.op) (specOut o.out) = true :=
+  Proofs.Replay.run04 kind w m ops hw hwrap
+
+set_option linter.unusedVariables false in
+/-- Direct form for the plain detector: once `s` was accepted at position `i`, every later
+operation on `s` is refused — no recorder involved. -/
+theorem plain_never_twice (w m : Nat) (ops : List Replay.Op) (i j : Nat) (s : Nat) (b : Bool)
+    (hm : m < two64) (hops : OpsU64 ops) (hij : i < j)
+    (hi : ops[i]? = some (.checkAccept s))
+    (hacc : (outs (Det.new .plain w m) ops)[i]? = some (.accepted b))
+    (hj : (ops[j]?).map Op.num = some s) :
+    (outs (Det.new .plain w m) ops)[j]? = some .refused :=
+  Proofs.Replay.plain_never_twice_gen w m s b ops _ _ i j (Proofs.Replay.Rp_new w m) hij hi hacc hj
+
+/-- No sequence number above the configured maximum is ever accepted (both detectors, any history,
+no side condition at all). -/
+theorem never_above_max (kind : Replay.Kind) (w m : Nat) (ops : List Replay.Op) (j : Nat) (op : Replay.Op)
+    (hj : ops[j]? = some op) (habove : m < Op.num op) :
+    (outs (Det.new kind w m) ops)[j]? = some .refused :=
+  Proofs.Replay.outs_above_max m ops _ j op rfl hj habove
+
+/-- The accept callback never panics in the model (no division, no out-of-range index). -/
+theorem never_panics (d : Det) (op : Replay.Op) : (Replay.step d op).2 ≠ .panic :=
+  Proofs.Replay.step_ne_panic d op
+
+-- non-vacuity: a concrete history with a window whose top word is partially used (48 bits),
+-- the replay of 100 after the window moved by 47 is refused (this is the pinned tree's 8-A)
+example : outs (Det.new .plain 48 1000) [.checkAccept 100, .checkAccept 147, .checkAccept 100]
+    = [.accepted true, .accepted true, .refused] := by decide
+-- late number across the wrap, then replayed (8-B)
+example : outs (Det.new .wrap 64 65535) [.checkAccept 65533, .checkAccept 2, .checkAccept 65534, .checkAccept 65534]
+    = [.accepted true, .accepted true, .accepted false, .refused] := by decide
+
 end TV.Props.C04
